@@ -10,8 +10,8 @@
 import os, random, re, shutil, subprocess, sys, tempfile
 
 CHECKS = {
-    "cdns_encoder": ["C06", "C10", "C02"], "cdns_decoder": ["C07", "C05", "C03", "C08"], "block.cpp": ["C01", "C04", "C11", "C12", "C02", "C08", "C19"],
-    "block.h": ["C11", "C19", "C01"], "block_table": ["C11", "C19"], "hash": ["C11"], "file_preamble": ["C09", "C08", "C13"],
+    "cdns_encoder": ["C06", "C10", "C02", "C14", "C13"], "cdns_decoder": ["C07", "C05", "C03", "C08"], "block.cpp": ["C01", "C04", "C11", "C12", "C02", "C08", "C19", "C09", "C03"],
+    "block.h": ["C11", "C19", "C01"], "block_table": ["C11", "C19"], "hash": ["C11"], "file_preamble": ["C09", "C08", "C13", "C03"],
     "timestamp": ["C17", "C01"], "writer": ["C14", "C15", "C16", "C13"], "cdns.": ["C12", "C13", "C10", "C05", "C02", "C16"],
     "interface": ["C03", "C01"], "bin/cdns_merge": ["C18"], "bin/cdns_itemcount": ["C18"],
 }
